@@ -12,11 +12,24 @@ if ! git apply "$patch" 2>/tmp/confirm_$name.err; then
   git apply --3way "$patch" 2>>/tmp/confirm_$name.err || { echo "$name: PATCH DOES NOT APPLY"; cd /; git -C /repo worktree remove --force "$wt"; exit 8; }
 fi
 PATH=/venv/bin:$PATH timeout 600 /venv/bin/python "$demo" >/tmp/confirm_$name.mut 2>&1; c1=$?
-tests=$(PATH=/venv/bin:$PATH timeout 1200 /venv/bin/python -m pytest -q -p no:cacheprovider --timeout=900 2>&1 | tail -1)
+# the repository's pinned baseline: the 255 stable tests of /root/.vp/BASELINE.json, run with its own command (no PATH tweak)
+timeout 1200 /venv/bin/python -m pytest -ra -q -p no:cacheprovider --timeout=900 --continue-on-collection-errors --junitxml=/tmp/confirm_$name.xml >/dev/null 2>&1
+tests=$(python3 - "/tmp/confirm_$name.xml" <<'PY'
+import json,sys,xml.etree.ElementTree as ET
+base=set(json.load(open('/root/.vp/BASELINE.json'))['stable_pass'])
+ok=set()
+for tc in ET.parse(sys.argv[1]).getroot().iter('testcase'):
+    tid=f"{tc.get('classname')}::{tc.get('name')}"
+    if not any(ch.tag in('failure','error','skipped') for ch in tc): ok.add(tid)
+missing=sorted(base-ok)
+print(f"baseline {len(base&ok)}/{len(base)} passed" + ("" if not missing else " failed: "+", ".join(missing[:3])))
+PY
+)
 git diff > /tmp/confirm_$name.diff
 cd /; git -C /repo worktree remove --force "$wt"
 echo "$name: demo_clean=$c0 demo_mutant=$c1 tests: $tests"
 case "$tests" in *failed*|*error*) echo "$name: TESTS FAIL"; exit 7;; esac
+case "$tests" in *"255/255"*) ;; *) echo "$name: BASELINE INCOMPLETE"; exit 7;; esac
 if [ "$c0" != 0 ] || [ "$c1" = 0 ]; then echo "$name: DEMO DOES NOT DISCRIMINATE"; exit 6; fi
 d="/verif/seeded/$name"; mkdir -p "$d"
 cp /tmp/confirm_$name.diff "$d/patch.diff"; cp "$demo" "$d/demo.py"
